@@ -38,6 +38,16 @@
     (b) objects of `_REFLECTIVE_TYPES` (frame, code, traceback, generator, coroutine, async generator, module —
         the Gen table `reflectiveTypes`) may be values of an expression, but none of their members can be read
         (`reflective_member_refused`), so `gi_frame.f_builtins['getattr']` is out of reach.
+  THE HOST CONTRACT IS FALSE ON REAL TREE NODES (finding D26, monitor key
+  `public-method-exposes-private:editable_dict`): with `--match-if` the names `from` / `to` are bound to
+  `TreeNode`s, and the PUBLIC method `TreeNode.editable_dict()` returns `dict(self.__dict__)`, so
+  `(from.editable_dict('')[0])['_children']` hands a node's private attributes (`_children`, `_parent`, …) to the
+  expression.  The evaluator issues no underscore read (every theorem below still holds, and
+  `no_underscore_getattr` is exactly what the run shows: reads `editable_dict`, then a `call` and a `getitem`);
+  the private state crosses the boundary inside the host operation `call`.  Hence the END-TO-END claim of C19
+  holds only MODULO D26: for hosts whose reachable public API does not hand out an object's `__dict__`.  The
+  stream binds real nodes (case kind `node`) and reports any OTHER mapping keyed by a node's private attribute
+  names under a different key, which fails the check.
   Before fixes e68be99 / 091716e both (a) and (b) failed; the monitor keys `format-field-attribute` and
   `reflective-builtin` stay active and the two shrunk reproducers are replayed from corpus/expr on every run.
 -/
